@@ -141,7 +141,7 @@ def parse_model_output(text):
     res, cur = {}, None
     for line in text.split('\n'):
         if line.startswith('CASE '):
-            cur = dict(status=None, impls=[], err=None, digest=None, stageA=None, strip=None)
+            cur = dict(status=None, impls=[], err=None, digest=None, stageA=None, strip=None, cells=[])
             res[line[5:]] = cur
         elif cur is None:
             continue
@@ -164,6 +164,8 @@ def parse_model_output(text):
             cur['stageA'] = (parts[1], parts[2:] if parts[1] == 'OK' else (parts[2] if len(parts) > 2 else ''))
         elif line == 'S' or line.startswith('S\t'):
             cur['strip'] = line.split('\t')[1:]
+        elif line == 'K' or line.startswith('K\t'):
+            cur['cells'] = line.split('\t')[1:]
     return res
 
 
